@@ -21,6 +21,7 @@ from engine.dataflow import ReachingDefs
 
 RULES = {
     "C05.a": "loss orientation: _epsilon's multiplier and every consumer's transform give weight (1-q) to over-predictions and q to under-predictions (abstract domain: sign -> linear polynomial in q)",
+    "C05.c": "IRLS bookkeeping as monomial degrees: weight = sample_weight^1 * |residual|^-1, monitored error = sample_weight^1 * |residual|^1; clipping threshold depends on delta only",
     "C05.b": "fit_intercept=False: zero intercept, no ones column; inner LinearRegression(fit_intercept=False, positive=self.positive)",
 }
 
@@ -364,12 +365,103 @@ def check_b(ck, repo):
                 ck.verdict(src_of(s.value) == "beta", "C05.b", fit, s, "coef_ is the full solution without intercept", f"coef_ = {src_of(s.value)}")
 
 
+def check_c(ck, repo):
+    """monomial degrees of sample_weight and |residual| in the IRLS weight and
+    in the error that fit accumulates: W ~ sw^1 * eps^-1, error ~ sw^1 * eps^1;
+    the clipping threshold depends on the hyper-parameter delta only."""
+    ci = repo.cls(MOD, CLS)
+    fit = ci.methods["fit"]
+    eps_fn = ci.methods["_epsilon"]
+    cz = None
+    for f in repo.all_functions.values():
+        if f.parent is fit and f.name == "compute_z":
+            cz = f
+    if cz is None:
+        ck.unknown("C05.c", fit, "compute_z", "nested IRLS step not found")
+        return
+    # does _epsilon multiply epsilon by its sample_weight parameter?
+    eps_sw = 0
+    for s in own_nodes(eps_fn.node):
+        if isinstance(s, ast.AugAssign) and isinstance(s.op, ast.Mult) and src_of(s.target) == "epsilon" and src_of(s.value) == "sample_weight":
+            eps_sw = 1
+    deg: Dict[str, Tuple[int, int]] = {}  # name -> (eps degree, sw degree)
+    call = None
+    stmts = sorted([s for s in own_nodes(cz.node) if isinstance(s, (ast.Assign, ast.AugAssign))], key=lambda s: s.lineno)
+    problems = []
+    for s in stmts:
+        if isinstance(s, ast.Assign) and isinstance(s.value, ast.Call) and src_of(s.value.func).endswith("_epsilon") and isinstance(s.targets[0], ast.Tuple):
+            call = s.value
+            passed = len(call.args) >= 4 or kwarg(call, "sample_weight") is not None
+            if passed:
+                a = call.args[3] if len(call.args) >= 4 else kwarg(call, "sample_weight")
+                passed = not (isinstance(a, ast.Constant) and a.value is None)
+            deg[src_of(s.targets[0].elts[0])] = (1, eps_sw if passed else 0)
+        elif isinstance(s, ast.Assign) and len(s.targets) == 1 and isinstance(s.targets[0], ast.Name) and isinstance(s.value, ast.Call) and src_of(s.value.func) == "numpy.reciprocal":
+            inner = s.value.args[0]
+            base = None
+            if isinstance(inner, ast.Call) and src_of(inner.func) == "numpy.maximum":
+                for a in inner.args:
+                    if isinstance(a, ast.Name) and a.id in deg:
+                        base = deg[a.id]
+            if base is None:
+                problems.append((s, "weights are not 1 / max(|residual|, delta)"))
+            else:
+                deg[s.targets[0].id] = (-base[0], -base[1])
+        elif isinstance(s, ast.AugAssign) and isinstance(s.target, ast.Name) and s.target.id in deg and isinstance(s.op, ast.Mult):
+            v = src_of(s.value)
+            if v in ("sample_weight", "W"):
+                deg[s.target.id] = (deg[s.target.id][0], deg[s.target.id][1] + 1)
+    rets = [r for r in own_nodes(cz.node) if isinstance(r, ast.Return) and isinstance(r.value, ast.Tuple) and len(r.value.elts) == 2]
+    if call is None or not rets:
+        ck.unknown("C05.c", cz, "compute_z", "cannot follow the IRLS step")
+        return
+    rw, re_ = [src_of(e) for e in rets[0].value.elts]
+    dW, dE = deg.get(rw), deg.get(re_)
+    # loop in fit: W, epsilon = compute_z(...); W *= sample_weight; epsilon *= sample_weight
+    loop_names = None
+    for s in own_nodes(fit.node):
+        if isinstance(s, ast.Assign) and isinstance(s.value, ast.Call) and src_of(s.value.func) == "compute_z" and isinstance(s.targets[0], ast.Tuple):
+            loop_names = [src_of(e) for e in s.targets[0].elts]
+            lstmt = s
+    if loop_names is None or dW is None or dE is None:
+        ck.unknown("C05.c", fit, "W, epsilon = compute_z(...)", "cannot follow the IRLS loop")
+        return
+    d = {loop_names[0]: dW, loop_names[1]: dE}
+    for s in sorted([x for x in own_nodes(fit.node) if isinstance(x, ast.AugAssign) and x.lineno > lstmt.lineno], key=lambda x: x.lineno):
+        if isinstance(s.target, ast.Name) and s.target.id in d and isinstance(s.op, ast.Mult) and src_of(s.value) == "sample_weight":
+            guarded = any(src_of(t) == "sample_weight is not None" and pol for t, pol in enclosing_tests(s, fit.node))
+            if guarded:
+                d[s.target.id] = (d[s.target.id][0], d[s.target.id][1] + 1)
+    for p_, msg in problems:
+        ck.violated("C05.c", cz, p_, msg)
+    wname, ename = loop_names
+    ck.verdict(d[wname] == (-1, 1), "C05.c", fit, f"IRLS weight {wname}: |residual|^{d[wname][0]} * sample_weight^{d[wname][1]}", "least-squares weights are sample_weight / |residual| (weighted absolute loss)", f"the weight handed to the inner least squares is |residual|^{d[wname][0]} * sample_weight^{d[wname][1]}; minimising the weighted pinball loss needs sample_weight^1 / |residual|^1 — the caller's weights cancel or count twice after the first iteration")
+    ck.verdict(d[ename] == (1, 1), "C05.c", fit, f"error {ename}: |residual|^{d[ename][0]} * sample_weight^{d[ename][1]}", "the monitored error is the weighted absolute loss", f"the error monitored for convergence is |residual|^{d[ename][0]} * sample_weight^{d[ename][1]}, not the weighted loss")
+    # the weight used by the inner fit is that W
+    fits = [c for c in own_nodes_incl_lambda(fit.node) if isinstance(c, ast.Call) and src_of(c.func) == "clr.fit"]
+    ck.verdict(len(fits) == 1 and [src_of(a) for a in fits[0].args] == ["Xm", "y", wname], "C05.c", fit, fits[0] if fits else "clr.fit(Xm, y, W)", "inner least squares is fitted on (Xm, y) with the IRLS weights", "the inner least squares does not receive (Xm, y, IRLS weights)")
+    # clipping threshold depends only on delta
+    rd = ReachingDefs(cz.node)
+    for s in stmts:
+        if isinstance(s, ast.Assign) and src_of(s.targets[0]) == "deltas":
+            at = rd.node_of(s)
+            dep = at is not None and rd.depends_on(s.value, at, {"Y", "beta", "W", "Xm"})
+            uses_delta = at is not None and rd.depends_on(s.value, at, {"delta"})
+            ck.verdict(uses_delta and not dep, "C05.c", cz, s, "clipping threshold is the hyper-parameter delta (data-independent)", "the clipping threshold of the IRLS weights depends on the data (targets/residuals): for targets far from zero every residual is clipped and the fit becomes a least-squares (expectile) fit")
+    dcall = [c for c in own_nodes_incl_lambda(fit.node) if isinstance(c, ast.Call) and src_of(c.func) == "compute_z"]
+    for c in dcall:
+        dk = kwarg(c, "delta")
+        ck.verdict(dk is not None and src_of(dk) == "self.delta", "C05.c", fit, f"delta={src_of(dk) if dk is not None else None}", "delta hyper-parameter forwarded", "self.delta is not forwarded to the IRLS step")
+
+
 def run(ck):
     repo = ck.repo
     for k, v in RULES.items():
         ck.rule(k, v)
     check_a(ck, repo)
     check_b(ck, repo)
+    check_c(ck, repo)
+    ck.require_count("C05.c", 5, "weight degree, error degree, inner fit, threshold, delta forwarding")
     ck.require_count("C05.a", 5, "_epsilon, two transforms in compute_z, one in score, score shape")
     ck.require_count("C05.b", 6, "inner solver options, design matrix x2, intercept_ x2, coef_ x2")
 
@@ -387,6 +479,11 @@ WITNESSES = [
     {"name": "inner-fit-intercept", "file": _F, "rule": "C05.b", "old": "            fit_intercept=False,\n            copy_X=self.copy_X,", "new": "            fit_intercept=self.fit_intercept,\n            copy_X=self.copy_X,"},
     {"name": "positive-not-forwarded", "file": _F, "rule": "C05.b", "old": "            positive=self.positive,\n        )\n\n        W =", "new": "            positive=False,\n        )\n\n        W ="},
     {"name": "intercept-nonzero", "file": _F, "rule": "C05.b", "old": "            self.intercept_ = 0\n", "new": "            self.intercept_ = beta[-1]\n"},
+]
+WITNESSES += [
+    {"name": "weights-cancel", "file": _F, "rule": "C05.c", "old": "                Y, Xm @ beta, self.quantile\n", "new": "                Y, Xm @ beta, self.quantile, W\n"},
+    {"name": "weights-never-applied", "file": _F, "rule": "C05.c", "old": "                W *= sample_weight\n                epsilon *= sample_weight\n", "new": "                epsilon *= sample_weight\n"},
+    {"name": "delta-scaled-by-targets", "file": _F, "rule": "C05.c", "old": "            deltas = numpy.ones(X.shape[0]) * delta\n", "new": "            deltas = numpy.ones(X.shape[0]) * delta * max(1.0, numpy.abs(Y).max())\n"},
 ]
 TWINS = [
     {"name": "score-factor-order", "file": _F, "old": "epsilon *= (1 - mult) * 2", "new": "epsilon *= 2 * (1 - mult)"},
